@@ -409,6 +409,10 @@ func (h *hintMgr) trydump(chunkID int, dumplast bool) (silence int64) {
 }
 
 func (h *hintMgr) close() {
+	// exclude the periodic hint dumper: two dumps of one split make the second
+	// one dereference the already released buffer
+	h.dumpLock.Lock()
+	defer h.dumpLock.Unlock()
 	for i := 0; i <= h.maxChunkID; i++ {
 		h.trydump(i, true)
 	}
